@@ -422,10 +422,15 @@ func VerifC11CloseTwice(withCall int) {
 		req := &dhcpv4.DHCPv4{OpCode: dhcpv4.OpcodeBootRequest, HWType: 1, TransactionID: verifXID, ClientHWAddr: verifHW, Options: dhcpv4.Options{53: []byte{1}}}
 		_, _ = c.SendAndRead(newVerifCtx(), verifDest(), req, nil)
 	}
-	done := make(chan error, 1)
-	go func() { done <- c.Close() }()
-	e1 := c.Close()
-	e2 := <-done
+	// the closers are released together (natively this makes them overlap as much as possible; the
+	// schedule-dependent counterexample is repeated there until it shows)
+	done := make(chan error, 2)
+	start := make(chan struct{})
+	for i := 0; i < 2; i++ {
+		go func() { <-start; done <- c.Close() }()
+	}
+	close(start)
+	e1, e2 := <-done, <-done
 	verifAssert(e1 == nil && e2 == nil, "close-returns")
 	verifSettle()
 	verifAssert(verifGoroutines() == 0, "no-goroutine-left-after-close")
